@@ -1,7 +1,7 @@
 (* Dispatch table of the extracted model executable: one command per modelled function.
    Model modules are required, not imported: every reference below is qualified. *)
 From FV Require Import Base.Prelude.
-From FV Require Model.ScriptBlocks Model.MathFuncs gen.MathTable Cpp.IR Cpp.Exec Model.KindModel Model.Arith Model.LocalDataset Model.WordSubst Model.CppTypesModel Model.ExecState.
+From FV Require Model.ScriptBlocks Model.MathFuncs gen.MathTable Cpp.IR Cpp.Exec Model.KindModel Model.Arith Model.LocalDataset Model.WordSubst Model.CppTypesModel Model.ExecState Cpp.EventLocal.
 
 Definition dispatch (cmd : string) (arg : sexp) : sexp :=
   if String.eqb cmd "c15.gen" then ScriptBlocks.run_gen arg
@@ -28,4 +28,6 @@ Definition dispatch (cmd : string) (arg : sexp) : sexp :=
   else if String.eqb cmd "c10.translate" then CppTypesModel.run_translate arg
   else if String.eqb cmd "c12.audit" then MathFuncs.audit MathTable.math_env MathTable.documented
   else if String.eqb cmd "c07.history" then ExecState.run_history arg
+  else if String.eqb cmd "c12.audit" then MathFuncs.audit MathTable.math_env MathTable.documented
+  else if String.eqb cmd "c05.event_local" then EventLocal.run_event_local arg
   else s_tag "unknown-command" [SAtom cmd].
